@@ -21,7 +21,7 @@ def filter_rules(rng, nkeys, once_keys):
 
 
 def behaviour(rng, nkeys, steps, weights, weak_keys=(), vals=97, leveled_params=None,
-              max_snaps=2, once_keys=(), filters=False):
+              max_snaps=2, once_keys=(), filters=False, litter=0.0):
     ops = []
     written_once = set()
     if filters:
@@ -77,7 +77,7 @@ def behaviour(rng, nkeys, steps, weights, weak_keys=(), vals=97, leveled_params=
             for _ in range(snaps):
                 ops.append({"op": "release", "which": "oldest"})
             snaps = 0
-            ops.append({"op": "reopen"})
+            ops.append({"op": "reopen", "litter": 1} if rng.random() < litter else {"op": "reopen"})
             # unflushed writes are gone: the discipline restarts from what was durable; to stay
             # inside it without knowing the tree, weak keys are not touched after a reopen
             weak_keys = ()
